@@ -292,7 +292,50 @@ def _gen_rq(rng, maxn, real=False):
 
 # ---- container.Queue histories (op cq)
 
-CQ_TYPE_OF_NEED = {0: 0, 1: 0, 2: 1, 3: 2, 4: 2}          # cheapest type (1, 2, 4 VCPUs) that fits; need >= 5: none
+# the cluster of the cq driver: id, VCPUs, RAM, scratch, price in 1/64, preemptible
+CQ_TABLE = [(0, 1, 1000, 1000, 64, False), (1, 2, 1000, 1000, 128, False), (2, 4, 2000, 2000, 192, False),
+            (3, 1, 1000, 1000, 16, True), (4, 2, 2000, 1000, 32, True), (5, 4, 2000, 3000, 48, True)]
+
+
+def _cq_decode(need):
+    """constraint vector encoded in `need`: VCPUs, RAM, tmp-mount bytes, preemptible"""
+    return need & 15, ((need >> 7) & 1) * 1900, ((need >> 5) & 3) * 1000, bool((need >> 4) & 1)
+
+
+def _cq_type(need):
+    """the cheapest configured type satisfying every constraint (prices are distinct), from the property text"""
+    v, ram, tmp, pre = _cq_decode(need)
+    need_ram = _tdiv(ram * 100, 95)
+    ok = [t for t in CQ_TABLE if t[1] >= v and t[2] >= need_ram and t[3] >= tmp and t[5] == pre]
+    return min(ok, key=lambda t: t[4])[0] if ok else None
+
+
+def _cq_show(need):
+    v, ram, tmp, pre = _cq_decode(need)
+    return f"{v} VCPUs, RAM {ram}, tmp {tmp}, preemptible={int(pre)}"
+
+
+def _cq_rand_need(rng):
+    v = rng.choice([1, 1, 1, 2, 2, 3, 4, 5, 9]) if rng.random() < 0.9 else 0
+    return (v | (16 if rng.random() < 0.3 else 0) | (rng.choice([0, 0, 0, 0, 1, 2, 3]) << 5)
+            | (128 if rng.random() < 0.15 else 0))
+
+
+def _cq_need(rng, base):
+    """mostly relatives of one base vector: the same resources with the other preemptible flag, an identical
+    copy, one other dimension changed - containers that a careless cache / comparison would confuse"""
+    r = rng.random()
+    if r < 0.3:
+        return base ^ 16
+    if r < 0.45:
+        return base
+    if r < 0.52:
+        return base ^ 128
+    if r < 0.6:
+        return (base & ~96) | (rng.randrange(4) << 5)
+    if r < 0.68:
+        return (base & ~15) | rng.choice([1, 2, 3, 4, 5])
+    return _cq_rand_need(rng)
 
 
 def _gen_cq(rng):
@@ -302,12 +345,13 @@ def _gen_cq(rng):
     back is followed by a complete poll before the pass (otherwise the scheduler cannot know better)."""
     n = rng.randint(1, 6)
     prios = rng.sample(range(1, 20), n)                  # distinct priorities: one outcome of the sort
+    base = _cq_rand_need(rng)
     ctl = {}
     for u in range(1, n + 1):
         r = rng.random()
         st = "Q" if r < 0.5 else "L" if r < 0.8 else "R" if r < 0.9 else rng.choice("CX")
         mine = st in "LR" and rng.random() < 0.85
-        need = rng.choice([1, 1, 1, 2, 2, 3, 4, 5, 9]) if rng.random() < 0.9 else 0
+        need = _cq_need(rng, base)
         prio = prios[u - 1] if rng.random() < 0.9 else 0
         ctl[u] = {"st": st, "prio": prio, "need": need, "mine": mine}
     init = ",".join(f"{u}:{c['st']}:{c['prio']}:{c['need']}:{'m' if c['mine'] else '-'}" for u, c in ctl.items())
@@ -356,9 +400,9 @@ def _gen_cq(rng):
             local_op()
         hist.append("ue")
         for u, c in snap.items():
-            if listed(c) and c["need"] <= 4:
+            if listed(c) and _cq_type(c["need"]) is not None:
                 known.add(u)
-            elif listed(c) and c["st"] in "QL" and c["need"] > 4:
+            elif listed(c) and c["st"] in "QL":
                 # unsatisfiable: the queue locks / flags / cancels it (unless a fault was injected)
                 cur = ctl[u]
                 if cur["st"] == "Q":
@@ -371,7 +415,7 @@ def _gen_cq(rng):
 
     faults = set()
     for u, c in ctl.items():
-        if c["need"] > 4 and rng.random() < 0.4:
+        if _cq_type(c["need"]) is None and rng.random() < 0.4:
             faults.add(u)
             hist.append(f"f{u}")
     npolls = rng.choice([1, 2, 2, 3])
@@ -383,7 +427,7 @@ def _gen_cq(rng):
     # after the last complete poll only the dispatcher's own operations
     for _ in range(rng.choice([0, 0, 1, 2])):
         local_op()
-    nt = rng.choice([1, 2, 3, 3])
+    nt = rng.choice([1, 2, 3, 3, 4, 6, 6])
     quota = rng.choice([0, 0, 1, 99, 99, 99])
     cancreate = rng.choice([0, 1, 99, 99])
     types = ",".join(f"{rng.choice([0, 0, 1, 1, 2])}:{rng.choice([0, 0, 1])}:{rng.choice('iiiiifsx')}" for _ in range(nt))
@@ -419,6 +463,7 @@ MALFORMED = [
     "cq 99:99 1:0:i 1:Q:5:1:-,1:L:4:1:m -",
     "cq 99:99 1:0:i 1:Q:5:1:- x9:Q:1",
     "cq 99:99 1:0:i 1:Q:5:1:- Z1",
+    "cq 99:99 1:0:i 1:Q:5:256:- ub,ue",
     "frob 1 2 3",
 ]
 
@@ -628,31 +673,32 @@ def _oracle_cq(case, impl):
             ctl1[int(u)] = (st, int(prio), "m" in fl)
     for u, (st, prio, ty) in cache.items():
         if st in "QL":
-            want = CQ_TYPE_OF_NEED.get(need[u])
+            want = _cq_type(need[u])
             if want is None:
-                return (f"unsatisfiable container {u} ({need[u]} VCPUs, state {st}) is in the queue with instance type "
+                return (f"unsatisfiable container {u} ({_cq_show(need[u])}, state {st}) is in the queue with instance type "
                         f"{'<zero value>' if ty == 'z' else ty} instead of getting an error")
             if ty != str(want):
-                return f"container {u} needing {need[u]} VCPUs is queued with type {ty}, the cheapest adequate type is {want}"
+                return (f"container {u} ({_cq_show(need[u])}, state {st}) is in the queue with instance type "
+                        f"{'<zero value>' if ty == 'z' else ty}; the cheapest configured type satisfying every constraint is {want}")
     evs = [] if parts["tr"] == "-" else parts["tr"].split(",")
     for ev in evs:
         m = re.match(r"^[cd](-?\d+)", ev) or re.match(r"^s(-?\d+)\.", ev)
-        if m and m.group(1) not in ("0", "1", "2") and ev[0] in "cs":
+        if m and m.group(1) not in ("0", "1", "2", "3", "4", "5") and ev[0] in "cs":
             return f"the scheduler asked the pool for an instance type that is not configured: {ev}"
     # ordering clauses, with "Locked" and the priorities as the controller has them
     def waiting(u):
         # an unsatisfiable container that the queue locked in order to cancel it waits for no worker
-        return u in ctl0 and ctl0[u][0] == "L" and ctl0[u][2] and CQ_TYPE_OF_NEED.get(need[u]) is not None
+        return u in ctl0 and ctl0[u][0] == "L" and ctl0[u][2] and _cq_type(need[u]) is not None
     started = []
     for ev in evs:
         m = EV_START.match(ev)
         if m and m.group(3) == "1":
             u = int(m.group(2))
-            if u in need and CQ_TYPE_OF_NEED.get(need[u]) is not None:
-                tb = CQ_TYPE_OF_NEED[need[u]]
+            if u in need and _cq_type(need[u]) is not None:
+                tb = _cq_type(need[u])
                 pb = ctl0[u][1] if u in ctl0 else 0
                 for a in ctl0:
-                    if (waiting(a) and a != u and a not in started and CQ_TYPE_OF_NEED.get(need[a]) == tb
+                    if (waiting(a) and a != u and a not in started and _cq_type(need[a]) == tb
                             and ctl0[a][1] > pb):
                         return (f"container {u} (priority {pb}) was started while container {a} (priority {ctl0[a][1]}), "
                                 f"Locked at the controller and needing the same instance type, is still waiting for a worker")
